@@ -252,3 +252,48 @@ func vpHasStr(l []string, s string) bool {
 	}
 	return false
 }
+
+// VP_C17_LateIgnore: a file that was staged before a .goitignore entry came to cover it: no later form of add stages the
+// excluded path again (its entry keeps the old id), whatever is done to the file in the meantime.
+func VP_C17_LateIgnore() {
+	vpInitRepo()
+	w := zzvp.Root()
+	ext := zzvp.Str("ext", 1, "a-z")
+	inDir := zzvp.Choose(2) == 1
+	path := vpComp("lf", 1) + "." + ext
+	line := "*." + ext
+	if inDir {
+		d := vpComp("ld", 1)
+		path = d + "/" + vpComp("lf", 1)
+		line = d + "/"
+	}
+	zzvp.WriteFile(w+"/"+path, []byte("1"))
+	zzvp.WriteFile(w+"/keep", []byte("k"))
+	vpOK(zzvp.Run("add", path, "keep"))
+	if zzvp.Choose(2) == 1 {
+		vpOK(zzvp.Run("commit", "-m", "c"))
+	}
+	before, _ := vpReadIndex()
+	zzvp.WriteFile(w+"/.goitignore", []byte(line+"\n"))
+	zzvp.WriteFile(w+"/"+path, []byte("2"))
+	zzvp.WriteFile(w+"/keep", []byte("K"))
+	var r zzvp.Result
+	switch zzvp.Choose(3) {
+	case 0:
+		r = zzvp.Run("add", ".")
+	case 1:
+		r = zzvp.Run("add", path, "keep")
+	default:
+		if inDir {
+			r = zzvp.Run("add", path[:len(path)-2], "keep")
+		} else {
+			r = zzvp.Run("add", ".", "keep")
+		}
+	}
+	zzvp.Assert(r.Exit == 0 || r.Exit == 1, "add ends with status 0 or 1")
+	after, _ := vpReadIndex()
+	b, _ := vpFindPair(before, path)
+	a, found := vpFindPair(after, path)
+	zzvp.Assert(!found || a == b, "no path inside .goit and no path excluded by .goitignore is ever staged")
+	zzvp.Done()
+}
